@@ -45,6 +45,11 @@ type pegParser struct {
 
 type pegSyntaxError struct{ msg string }
 
+// pegUnspecified: the text uses a spelling the documentation says nothing
+// about (a dash directly before the closing bracket of a class); a comparison
+// with peg.peg neither demands nor forbids it.
+type pegUnspecified struct{ msg string }
+
 func (p *pegParser) fail(format string, a ...any) {
 	line := 1 + strings.Count(string(p.src[:min(p.pos, len(p.src))]), "\n")
 	panic(pegSyntaxError{fmt.Sprintf("%s:%d: %s", p.file, line, fmt.Sprintf(format, a...))})
@@ -154,6 +159,10 @@ func parsePeg(file, text string) (g *pgrammar, err error) {
 				err = fmt.Errorf("%s", se.msg)
 				return
 			}
+			if u, ok := r.(pegUnspecified); ok {
+				err = fmt.Errorf("%s: %s (a spelling the documentation does not define)", file, u.msg)
+				return
+			}
 			panic(r)
 		}
 	}()
@@ -217,6 +226,9 @@ func parsePeg(file, text string) (g *pgrammar, err error) {
 		if _, dup := g.ByName[name]; !dup {
 			g.ByName[name] = r
 		}
+	}
+	if len(g.Rules) == 0 {
+		p.fail("a grammar needs at least one rule")
 	}
 	return g, nil
 }
@@ -350,8 +362,14 @@ func (p *pegParser) primary() *pexpr {
 		p.spacing()
 		return &pexpr{Op: "lit", S: string(rs), Insens: q == '"', Pos: line}
 	case p.has("[["):
-		p.pos += 2
-		return p.class("]]", true, line)
+		// a double-bracket class; when it is not closed by ]] the text can still be a
+		// single-bracket class whose first member is '['
+		save := p.pos
+		if e := p.tryClass("]]", true, line, 2); e != nil {
+			return e
+		}
+		p.pos = save + 1
+		return p.class("]", false, line)
 	case p.peek() == '[':
 		p.pos++
 		return p.class("]", false, line)
@@ -364,6 +382,22 @@ func (p *pegParser) primary() *pexpr {
 		return &pexpr{Op: "action", S: code, Pos: line}
 	}
 	return nil
+}
+
+func (p *pegParser) tryClass(close string, insens bool, line, skip int) (e *pexpr) {
+	save := p.pos
+	defer func() {
+		if r := recover(); r != nil {
+			if _, ok := r.(pegSyntaxError); ok {
+				p.pos = save
+				e = nil
+				return
+			}
+			panic(r)
+		}
+	}()
+	p.pos += skip
+	return p.class(close, insens, line)
 }
 
 func (p *pegParser) class(close string, insens bool, line int) *pexpr {
@@ -381,9 +415,15 @@ func (p *pegParser) class(close string, insens bool, line int) *pexpr {
 	for !p.eof() && !p.has(close) {
 		lo := p.char()
 		hi := lo
-		if p.peek() == '-' && p.pos+1 < len(p.src) && !(string(p.src[p.pos+1:p.pos+1+len([]rune(close))]) == close) {
-			p.pos++
-			hi = p.char()
+		if p.peek() == '-' {
+			rest := string(p.src[p.pos+1:])
+			if strings.HasPrefix(rest, close) || strings.HasPrefix(rest, "]") {
+				panic(pegUnspecified{"a dash directly before the closing bracket"})
+			}
+			if p.pos+1 < len(p.src) {
+				p.pos++
+				hi = p.char()
+			}
 		}
 		e.Ranges = append(e.Ranges, [2]rune{lo, hi})
 	}
@@ -411,7 +451,7 @@ func (p *pegParser) char() rune {
 			return r
 		}
 	}
-	if p.has("0x") || p.has("0X") {
+	if (p.has("0x") || p.has("0X")) && p.pos+2 < len(p.src) && strings.ContainsRune("0123456789abcdefABCDEF", p.src[p.pos+2]) {
 		p.pos += 2
 		st := p.pos
 		for !p.eof() && strings.ContainsRune("0123456789abcdefABCDEF", p.peek()) {
